@@ -8,6 +8,7 @@
 EXTENDS Integers, Sequences, FiniteSets, TLC, Json, IOUtils, Term, Dbl
 VARIABLES l, bad, dec
 NoE == [q \in {} |-> VUndef]
+BR == INSTANCE BigRat
 Names == <<"default", "visitor", "single", "evalf53", "lambda">>
 Unsupported == {"NotImplementedError", "SymEngineException", "DomainError"}
 CheckEv(e) ==
@@ -16,8 +17,10 @@ CheckEv(e) ==
              got(n) == r[n]
              okv(n) == r[n].exc = "" /\ r[n].v.k = "Dbl"
              val == Val(e.c.t, NoE)
-             exact == val.t = "num" /\ ExactRat(val) /\ IAbs(val.re[1]) < 32768 /\ val.re[2] < 32768
-             want == RatDbl(val.re)
+             small == val.t = "num" /\ ExactRat(val) /\ IAbs(val.re[1]) < 32768 /\ val.re[2] < 32768
+             big == IF small THEN BR!BQU ELSE BR!BQVal(e.c.t)            \* integers beyond TLC's: module BigRat
+             exact == small \/ BR!BQOk(big)
+             want == IF small THEN RatDbl(val.re) ELSE BR!BigRatDbl(big)
              have == {n \in 1..Len(Names) : okv(Names[n])}
              cplx == r.complex.exc = "" /\ r.complex.v.a[2].s = "zero"
              farFromExact == {n \in have : DblClose(r[Names[n]].v, want) = "far"}
